@@ -10,12 +10,21 @@ import (
 )
 
 // Verification hooks (build tag "verif"): a substitutable dialer for target
-// connections, and named program points a test harness can observe or park at.
+// connections, a substitutable listener for the HTTP and HTTPS servers, and
+// named program points a test harness can observe or park at.
 
 var (
-	verifDial    func(ctx context.Context, network, addr string) (net.Conn, error)
-	verifPointFn func(name string, args ...any)
+	verifDial     func(ctx context.Context, network, addr string) (net.Conn, error)
+	verifListenFn func(network, addr string) (net.Listener, error)
+	verifPointFn  func(name string, args ...any)
 )
+
+func verifListen(network, addr string) (net.Listener, error) {
+	if fn := verifListenFn; fn != nil {
+		return fn(network, addr)
+	}
+	return net.Listen(network, addr)
+}
 
 func verifProxy(h http.Handler) {
 	if verifDial == nil {
